@@ -3,12 +3,15 @@
 
    Modelled and proved here: base64, URI, CSV/TSV (writer, reader, yq's header
    and object logic), properties (writer, lexer/parser, flat maps, paths), the
-   Lua encoder's string literals and bare keys.  XML, TOML and the Lua decoder
-   run third-party tokenizers / a VM: no theorem here, they are tied to the
-   implementation by independent readers in checks/props/c14.py only. *)
+   Lua encoder's string literals and bare keys, and XML at the level of the
+   token stream of encoding/xml (yq's decoder fold, its grouping, its encoder
+   as a token writer; the tokenizer / escaper is the library's), and TOML at the
+   level of the expression list of go-toml's parser (the decoder's control
+   flow against a section-by-section denotation; assignment / merge are the
+   model's).  The Lua decoder runs a VM: no theorem, tied by tests only. *)
 From Coq Require Import String.
-From YQ Require Import Base.Str Model.Base64 Model.Uri Model.Csv Model.Props Model.LuaStr Spec.Codecs
-  Proofs.Base64Proofs Proofs.UriProofs Proofs.CsvProofs Proofs.PropsProofs Proofs.LuaProofs Proofs.PairProofs.
+From YQ Require Import Base.Str Model.Base64 Model.Uri Model.Csv Model.Props Model.LuaStr Model.Xml Model.Toml Spec.Codecs Spec.XmlSpec Spec.TomlSpec
+  Proofs.Base64Proofs Proofs.UriProofs Proofs.CsvProofs Proofs.PropsProofs Proofs.LuaProofs Proofs.PairProofs Proofs.XmlProofs Proofs.TomlProofs.
 
 (* ======================= base64 ======================= *)
 
@@ -163,6 +166,125 @@ Theorem C14_lua_bare_key_sound : forall k : str,
 Proof. exact lua_bare_key_sound. Qed.
 Print Assumptions C14_lua_bare_key_sound.
 
+(* ======================= XML (token level) ======================= *)
+
+(* decoding the token stream of ANY ordered element forest (attributes, text
+   chunks in front of the children, children in any order, same-named
+   siblings adjacent or not, at every depth; any preferences, any trimming
+   function) yields the document that forest denotes (Spec/XmlSpec.v) *)
+Theorem C14_xml_decode_denotes : forall (trim : str -> str) (P : xprefs) (f : list otree),
+  decode_toks trim P (forest_toks f) = XOk (forest_val trim P f).
+Proof. exact xml_decode_denotes. Qed.
+Print Assumptions C14_xml_decode_denotes.
+
+(* the grouping of repeated names (xmlNode.AddChild), characterised: the keys
+   are the given keys in order of first occurrence ... *)
+Theorem C14_xml_group_keys : forall (A : Type) (kvs : list (str * A)),
+  List.map fst (add_all kvs []) = first_keys [] (List.map fst kvs).
+Proof. exact (@group_keys). Qed.
+Print Assumptions C14_xml_group_keys.
+
+(* ... and every key holds exactly the values given for it, in document order *)
+Theorem C14_xml_group_values : forall (A : Type) (kvs : list (str * A)) (k : str),
+  find_key k (add_all kvs []) = match values_of k kvs with [] => None | vs => Some vs end.
+Proof. exact (@group_values). Qed.
+Print Assumptions C14_xml_group_values.
+
+(* decode (encode d) = d for every canonical document: elements with
+   attributes (distinct names), optional text that the decoder keeps (trim s =
+   s, non-empty), child groups with distinct element keys, each group one
+   value or a sequence, to any depth; for all preferences that keep the key
+   classes apart and every trimming function that drops the empty string and
+   a newline *)
+Theorem C14_xml_tree_roundtrip : forall (trim : str -> str) (P : xprefs),
+  trim [] = [] -> trim [10] = [] ->
+  classify P (content_name P) = KContent -> (forall nm, classify P (attr_prefix P ++ nm) = KAttr) ->
+  forall doc, doc_ok trim P doc ->
+  exists toks, encode_toks P (cdoc P doc) = Some toks /\ decode_toks trim P toks = XOk (cdoc P doc).
+Proof. exact xml_roundtrip. Qed.
+Print Assumptions C14_xml_tree_roundtrip.
+
+(* the default preferences and the ASCII trimming meet those hypotheses *)
+Theorem C14_xml_roundtrip_default : forall doc, doc_ok ascii_trim default_xprefs doc ->
+  exists toks, encode_toks default_xprefs (cdoc default_xprefs doc) = Some toks /\
+               decode_toks ascii_trim default_xprefs toks = XOk (cdoc default_xprefs doc).
+Proof. exact xml_roundtrip_default. Qed.
+Print Assumptions C14_xml_roundtrip_default.
+
+(* KNOWN FINDING xml-text-trim: text with surrounding white space is not in the
+   domain: it comes back trimmed *)
+Theorem C14_xml_text_trim_refuted : exists d : xval,
+  d = XMap [([97], XStr [32; 120; 32])] /\
+  exists toks, encode_toks default_xprefs d = Some toks /\
+               decode_toks ascii_trim default_xprefs toks = XOk (XMap [([97], XStr [120])]).
+Proof. eexists. split; [reflexivity|]. eexists. split; vm_compute; reflexivity. Qed.
+Print Assumptions C14_xml_text_trim_refuted.
+
+(* KNOWN FINDING xml-chardata-split: one text made of several character data
+   tokens (a CDATA section or a comment inside the text) becomes a sequence *)
+Theorem C14_xml_chardata_split_refuted : exists toks : list xtok,
+  toks = [TStart ([], [97]) []; TChar [116]; TChar [60; 120; 62]; TChar [117]; TEnd ([], [97])] /\
+  decode_toks ascii_trim default_xprefs toks = XOk (XMap [([97], XSeq [XStr [116]; XStr [60; 120; 62]; XStr [117]])]).
+Proof. eexists. split; [reflexivity|vm_compute; reflexivity]. Qed.
+Print Assumptions C14_xml_chardata_split_refuted.
+
+(* the map form cannot keep the document order of differently named
+   siblings: decoding b c b and encoding the result writes b b c *)
+Theorem C14_xml_sibling_order_refuted : exists f : list otree,
+  forest_toks f = [TStart ([], [114]) []; TStart ([], [98]) []; TChar [49]; TEnd ([], [98]);
+                   TStart ([], [99]) []; TChar [50]; TEnd ([], [99]); TStart ([], [98]) []; TChar [51]; TEnd ([], [98]); TEnd ([], [114])] /\
+  encode_toks default_xprefs (forest_val ascii_trim default_xprefs f) =
+    Some [TStart ([], [114]) []; TStart ([], [98]) []; TChar [49]; TEnd ([], [98]); TStart ([], [98]) []; TChar [51]; TEnd ([], [98]);
+          TStart ([], [99]) []; TChar [50]; TEnd ([], [99]); TEnd ([], [114]); TChar [10]].
+Proof.
+  exists [ONode ([], [114]) [] [] [ONode ([], [98]) [] [[49]] []; ONode ([], [99]) [] [[50]] []; ONode ([], [98]) [] [[51]] []]].
+  split; vm_compute; reflexivity.
+Qed.
+Print Assumptions C14_xml_sibling_order_refuted.
+
+(* ======================= TOML (expression level) ======================= *)
+
+(* for every document (top-level key/values, then sections: [table] or
+   [[array table]] headers with their key/values, sections without key/values
+   and a header at the very end included), decoding its expression list gives
+   its section-by-section denotation (Spec/TomlSpec.v), errors included: the
+   read-ahead / run-against-current-expression control flow of the decoder
+   groups the expressions correctly *)
+Theorem C14_toml_denotes : forall d : tdoc, toml_decode (flatten d) = toml_den d.
+Proof. exact toml_denotes. Qed.
+Print Assumptions C14_toml_denotes.
+
+(* a dotted key assigned into an empty table creates the nested tables *)
+Theorem C14_toml_dotted_key : forall (p : list str) (v : tnode), p <> [] -> deeply_assign p v [] = TOk (nest p v).
+Proof. exact dotted_key_nests. Qed.
+Print Assumptions C14_toml_dotted_key.
+
+(* KNOWN FINDING toml-array-subtable: a table under the last element of an
+   array of tables (valid TOML) is an error: the path a.b does not step into
+   the last element of the sequence a *)
+Theorem C14_toml_array_subtable_refuted : exists d : tdoc,
+  d = ([], [mkSection true [[97]] [([[120]], TVScalar KInteger [49])]; mkSection false [[97]; [98]] [([[121]], TVScalar KInteger [50])]]) /\
+  toml_decode (flatten d) = TErrIndexArray.
+Proof. eexists. split; [reflexivity|vm_compute; reflexivity]. Qed.
+Print Assumptions C14_toml_array_subtable_refuted.
+
+(* KNOWN FINDING toml-local-datetime *)
+Theorem C14_toml_local_date_refuted : exists d : tdoc,
+  d = ([([[100]], TVScalar KLocalDate [49; 57; 55; 57; 45; 48; 53; 45; 50; 55])], []) /\ toml_decode (flatten d) = TErrKind.
+Proof. eexists. split; [reflexivity|vm_compute; reflexivity]. Qed.
+Print Assumptions C14_toml_local_date_refuted.
+
+(* non-vacuity for TOML: an empty table, an array of tables with an empty
+   element at the end, dotted keys sharing a prefix inside an inline table *)
+Example C14_toml_example :
+  let one := TVScalar KInteger [49] in
+  let d : tdoc := ([([[120]], TVInline [([[97]; [98]], one); ([[97]; [99]], one)])],
+                   [mkSection false [[116]] []; mkSection true [[113]] [([[110]], one)]; mkSection true [[113]] []]) in
+  toml_decode (flatten d) =
+  TOk [([120], NMap [([97], NMap [([98], NScalar GInt [49]); ([99], NScalar GInt [49])])]);
+       ([116], NMap []); ([113], NSeq [NMap [([110], NScalar GInt [49])]; NMap []])].
+Proof. vm_compute. reflexivity. Qed.
+
 (* ======================= in-expression pairs ======================= *)
 
 (* @base64 / @base64d, @uri / @urid, to_props / from_props are the codecs
@@ -174,6 +296,29 @@ Theorem C14_inverse_pairs :
      props_parse (props_encode [] false (flat_doc kvs)) = Some kvs).
 Proof. exact inverse_pairs. Qed.
 Print Assumptions C14_inverse_pairs.
+
+(* non-vacuity for XML: a document with attributes, text, a repeated child and nesting is in the domain *)
+Example C14_xml_example :
+  let leaf s := CNode [] (Some s) [] in
+  let doc := [([114], [CNode [([105; 100], [49; 60])] (Some [116; 32; 38])
+                         [([98], [leaf [49]; leaf [51]]); ([99], [CNode [([107], [])] None []])]])] in
+  doc_ok ascii_trim default_xprefs doc.
+Proof.
+  assert (leaf_ok : forall s, ascii_trim s = s -> s <> [] -> cok ascii_trim default_xprefs (CNode [] (Some s) [])).
+  { intros s H1 H2. constructor; [split; assumption|constructor|constructor|constructor]. }
+  cbv zeta. unfold doc_ok. split; [discriminate|]. split; [repeat constructor; intros []|].
+  constructor; [|constructor]. split; [vm_compute; reflexivity|]. split; [discriminate|].
+  constructor; [|constructor]. constructor.
+  - split; [vm_compute; reflexivity|discriminate].
+  - repeat constructor. intros [].
+  - repeat constructor; cbn; intuition discriminate.
+  - constructor; [|constructor; [|constructor]].
+    + split; [vm_compute; reflexivity|]. split; [discriminate|].
+      constructor; [apply leaf_ok; [vm_compute; reflexivity|discriminate]|].
+      constructor; [apply leaf_ok; [vm_compute; reflexivity|discriminate]|constructor].
+    + split; [vm_compute; reflexivity|]. split; [discriminate|].
+      constructor; [|constructor]. constructor; [exact I|repeat constructor; intros []|constructor|constructor].
+Qed.
 
 (* non-vacuity: the hypotheses are met by adversarial inputs *)
 Example C14_example :
